@@ -91,7 +91,7 @@ type world struct {
 // else is a C18 rule.
 var c19Rules = map[string]bool{
 	"reply-mismatch": true, "inflight-duplicate-never-completes": true, "misordered-accepted": true,
-	"false-retry-answered": true, "effect-not-once": true,
+	"false-retry-answered": true, "effect-not-once": true, "in-order-create-session-rejected": true,
 }
 
 func (w *world) violate(short, msg string) {
